@@ -135,6 +135,41 @@ Theorem C15_rejects_malformed :
 Proof. exact (unlock_rejects). Qed.
 Print Assumptions C15_rejects_malformed.
 
+(* STRINGS OF OTHER LENGTHS: a string whose base64 decoding has any length other than 84 (shorter, or a conforming blob followed
+   or preceded by further bytes) is refused by EncodedSk::try_from, and unlock_private_key itself answers PrivateKeyLength under
+   every password — nothing after the 84th byte is ever ignored *)
+Theorem C15_other_lengths_rejected :
+  forall P : prims,
+  forall (locked : text) (kb pw : bytes),
+  b64_decode locked = Some kb ->
+  length kb <> 84%nat ->
+  sk_string_ok locked = false /\ unlock_private_key P locked pw = Err PrivateKeyLength.
+Proof.
+  intros P locked kb pw Hdec Hlen.
+  assert (Hne : Nat.eqb (length kb) (N.to_nat x_kr_private_key_ct_len) = false).
+  { apply PeanoNat.Nat.eqb_neq. exact Hlen. }
+  split.
+  - unfold sk_string_ok. rewrite Hdec. exact Hne.
+  - unfold unlock_private_key, sk_as_bytes. rewrite Hdec. cbn [obind]. rewrite Hne. reflexivity.
+Qed.
+Print Assumptions C15_other_lengths_rejected.
+
+(* ... in particular every proper extension of a conforming blob, whatever follows it *)
+Theorem C15_trailing_bytes_rejected :
+  forall P : prims,
+  forall (sk pw salt extra pw' : bytes),
+  length (kr_blob P sk pw salt) = 84%nat ->
+  extra <> [] ->
+  forall locked : text,
+  b64_decode locked = Some (kr_blob P sk pw salt ++ extra) ->
+  sk_string_ok locked = false /\ unlock_private_key P locked pw' = Err PrivateKeyLength.
+Proof.
+  intros P sk pw salt extra pw' H84 Hne locked Hdec.
+  apply (C15_other_lengths_rejected P locked _ pw' Hdec).
+  rewrite app_length, H84. destruct extra as [|x xs]; [congruence|]. cbn [length]. Lia.lia.
+Qed.
+Print Assumptions C15_trailing_bytes_rejected.
+
 (* TAMPER, unconditional part: any change to the 4 version bytes (any 84-byte blob whose first four bytes are not the version), any password: PrivateKeyFormat *)
 Theorem C15_tamper_version_rejected :
   forall P : prims,
